@@ -305,7 +305,75 @@ class Gen:
             j['skip_exc'] = ['PathAccessError', 'ValueError']
         elif s < 0.25:
             j['skip_exc'] = ['KeyError']
+        if r.random() < 0.25:
+            # boundary values of the three keyword arguments (falsy / empty / one-element / explicit default)
+            b = r.choice(self.COALESCE_BOUNDS)
+            j.update(b)
+            if b.get('dflt') is not None:
+                j['dflt_factory'] = None              # (default and default_factory exclude each other)
+            if b.get('dflt_factory') is not None:
+                self.nfn += 1
+                j['dflt'], j['dflt_factory'] = None, ['f%d' % self.nfn, b['dflt_factory'][1]]
         return j
+
+    # boundary values of Coalesce's skip / skip_exc / default arguments: each entry overrides the fields it names
+    COALESCE_BOUNDS = (
+        # skip_exc: the empty tuple (pass over no exception), one-element tuples, the default spelled out
+        [{'skip_exc': [], 'se_form': 'tuple'},
+         {'skip_exc': ['GlomError'], 'se_form': 'class'},
+         {'skip_exc': ['GlomError'], 'se_form': 'tuple'},
+         {'skip_exc': ['PathAccessError'], 'se_form': 'class'},
+         {'skip_exc': ['PathAccessError'], 'se_form': 'tuple'},
+         {'skip_exc': ['ValueError'], 'se_form': 'tuple'},
+         {'skip_exc': ['ValueError', 'KeyError'], 'se_form': 'tuple'},
+         {'skip_exc': ['Exception'], 'se_form': 'class'}] +
+        # skip: the empty tuple (nothing is skipped), one-element tuples, falsy single values
+        [{'skip': {'k': 'anyOf', 'vs': []}},
+         {'skip': {'k': 'anyOf', 'vs': [None]}},
+         {'skip': {'k': 'anyOf', 'vs': [{'i': 0}]}},
+         {'skip': {'k': 'eq', 'v': None}},
+         {'skip': {'k': 'eq', 'v': {'i': 0}}},
+         {'skip': {'k': 'eq', 'v': {'b': False}}},
+         {'skip': {'k': 'eq', 'v': {'s': ''}}},
+         {'skip': {'k': 'eq', 'v': {'l': []}}},
+         {'skip': {'k': 'eq', 'v': {'sent': 'SKIP'}}}] +
+        # default: falsy values, empty containers, the sentinels, a factory
+        [{'dflt': {'k': 'lit', 'v': None}}, {'dflt': {'k': 'lit', 'v': {'i': 0}}},
+         {'dflt': {'k': 'lit', 'v': {'b': False}}}, {'dflt': {'k': 'str', 's': ''}},
+         {'dflt': {'k': 'list', 'xs': []}}, {'dflt': {'k': 'dict', 'es': []}}, {'dflt': {'k': 'tuple', 'xs': []}},
+         {'dflt': {'k': 'lit', 'v': {'sent': 'SKIP'}}}, {'dflt': {'k': 'lit', 'v': {'sent': 'STOP'}}},
+         {'dflt': {'k': 'val', 'v': None}}, {'dflt': None, 'dflt_factory': ['ff', 'mk_list']},
+         {'dflt': None, 'dflt_factory': ['ff', 'mk_zero']}])
+
+    @classmethod
+    def coalesce_boundaries(cls):
+        """enumerated: every boundary value of one keyword argument (the others at their defaults, and pairs of a
+        skip_exc boundary with a default) x what the first alternative does (raises PathAccessError from a str
+        path / from T, raises GlomError / ValueError / CoalesceError, yields None / 0 / a value) followed by a
+        logged later alternative x where the Coalesce stands (whole spec, dict value beside a sibling, tuple
+        step, list element).  `first non-skipped success wins`, an exception not in skip_exc propagates."""
+        T0 = {'k': 't', 'steps': []}
+        later = {'k': 'fn', 'name': 'later', 'kind': 'const7'}
+        inner_ce = {'k': 'coalesce', 'subs': [{'k': 'str', 's': 'zz'}], 'dflt': None, 'dflt_factory': None, 'skip': None,
+                    'skip_exc': ['GlomError']}
+        firsts = [{'k': 'str', 's': 'zz'}, {'k': 't', 'steps': [['[', ic.enc('nope')]]},
+                  {'k': 'fn', 'name': 'boom', 'kind': 'raise_glom'}, {'k': 'fn', 'name': 'boom', 'kind': 'raise_ve'},
+                  inner_ce, {'k': 'val', 'v': None}, {'k': 'val', 'v': ic.enc(0)}, {'k': 'str', 's': 'a'}]
+        bounds = list(cls.COALESCE_BOUNDS)
+        bounds += [dict(a, **b) for a in cls.COALESCE_BOUNDS[:3] for b in cls.COALESCE_BOUNDS[17:] if 'dflt' in b
+                   and b['dflt'] is not None and b['dflt'].get('k') == 'lit']
+        target = {'a': 1, 'b': None}
+        for b in bounds:
+            for f in firsts:
+                c = {'k': 'coalesce', 'subs': [f, later], 'dflt': None, 'dflt_factory': None, 'skip': None,
+                     'skip_exc': ['GlomError']}
+                c.update(b)
+                ctxs = [(c, target),
+                        ({'k': 'dict', 'es': [[{'k': 'str', 's': 'x'}, {'k': 'str', 's': 'a'}], [{'k': 'str', 's': 'y'}, c]]}, target),
+                        ({'k': 'tuple', 'xs': [T0, c, {'k': 'fn', 'name': 'after', 'kind': 'wrap'}]}, target),
+                        ({'k': 'list', 'xs': [c]}, [target, {'a': 0}])]
+                for spec, t in ctxs:
+                    yield {'spec': spec, 'target': ic.enc(t), 'scope': []}
 
     def argspec(self, v, depth):
         """a spec used in argument position"""
